@@ -1,6 +1,9 @@
 package main
 
 import (
+	"github.com/rminnich/go9p"
+	"path/filepath"
+	"os"
 	"fmt"
 	"strings"
 
@@ -348,6 +351,11 @@ func c04Scenarios(tier string) []Scenario {
 	out = append(out, c04IsolationScenario(false), c04IsolationScenario(true))
 	out = append(out, c04CancelledScenario(false), c04CancelledScenario(true))
 	out = append(out, heldAcrossClunkScenario("C04"))
+	ud := 4
+	if tier == "thorough" {
+		ud = 5
+	}
+	out = append(out, c04UfsValidity(true, ud), c04UfsValidity(false, ud))
 	return out
 }
 
@@ -378,7 +386,7 @@ func c04IsolationScenario(dotu bool) Scenario {
 func init() {
 	register(&Property{ID: "C04", Level: "model_checking",
 		Technique: "explicit-state breadth-first search over protocol histories of a Go reference fid-table model, every transition executed on the real server (replay of the history on a fresh instance) and compared",
-		Rule:      "alphabet of ~60 requests over fid numbers {0,1,2} (attach/auth incl. bad afid, walks full/partial/failing/in place/to a used fid, open/create/read/write/stat/wstat/clunk/remove, each with implementation success or error); BFS to the stated depth from the empty connection, states deduplicated on model state + digest of the server's own fid table; after every event Tstat probes on each fid number; two-connection isolation runs; histories in which a request parked in the implementation is cancelled by Tflush (8 request kinds) and the table is probed, clunked and probed again; histories in which a request is held on a fid while the fid is clunked / removed and its number bound again, then completes (the server's own answers are the history). states = distinct canonical states, transitions = histories executed",
+		Rule:      "alphabet of ~60 requests over fid numbers {0,1,2} (attach/auth incl. bad afid, walks full/partial/failing/in place/to a used fid, open/create/read/write/stat/wstat/clunk/remove, each with implementation success or error); BFS to the stated depth from the empty connection, states deduplicated on model state + digest of the server's own fid table; after every event Tstat probes on each fid number; two-connection isolation runs; histories in which a request parked in the implementation is cancelled by Tflush (8 request kinds) and the table is probed, clunked and probed again; histories in which a request is held on a fid while the fid is clunked / removed and its number bound again, then completes (the server's own answers are the history); on the real Ufs every sequence of 4 (thorough 5) requests over walks, clunks, removes and creates of hard links / symlinks naming a second fid, with Tstat probes on every fid after each. states = distinct canonical states, transitions = histories executed",
 		Assumptions: []string{"sequential histories on the default schedule (concurrency around fid destruction is explored by C07/C11)", "the reference model (harness/fidmodel.go) is a correct reading of the protocol rules"},
 		Scenarios:   c04Scenarios, QuickS: 100, ThoroughS: 1500})
 }
@@ -517,6 +525,153 @@ func heldAcrossClunkScenario(prop string) Scenario {
 			}
 		}
 		res.Samples = append(res.Samples, "request held on fid 1 (read/stat/walk/write) x Tclunk/Tremove of fid 1 x number bound again x held request completes x probes x disconnect, both dialects, Maxpend 0/2")
+		return res
+	}}
+}
+
+// c04UfsValidity: the same rule on the bundled Unix file server, whose operations take
+// references of their own (a hard-link create names a second fid in its extension):
+// every sequence of `depth` requests over a small alphabet; after each request a Tstat
+// probe on every fid number must answer exactly for the fids the history made valid,
+// and re-binding a number works exactly when it is free.
+func c04UfsValidity(dotu bool, depth int) Scenario {
+	name := fmt.Sprintf("ufs-fid-validity dotu=%v depth=%d", dotu, depth)
+	return Scenario{Name: name, Run: func(rc *RunCtx) *Result {
+		res := &Result{Exhaustive: true, Bounds: map[string]any{"depth": depth}}
+		base, root := scratchDir("c04")
+		defer os.RemoveAll(base)
+		type ev struct {
+			name string
+			msg  func() *wire.Msg
+			// effect on the set of valid fids when the reply is a success
+			add, del int // fid numbers (-1 = none)
+		}
+		link := func(n string, ext string) func() *wire.Msg {
+			return func() *wire.Msg {
+				return &wire.Msg{Type: wire.Tcreate, Fid: 1, Name: n, Perm: go9p.DMLINK | 0644, Mode: 0, Ext: ext}
+			}
+		}
+		alpha := []ev{
+			{"walk 0->1 d", func() *wire.Msg { return twalk(0, 0, 1, "d") }, 1, -1},
+			{"walk 0->2 f", func() *wire.Msg { return twalk(0, 0, 2, "f") }, 2, -1},
+			{"walk 0->3 d", func() *wire.Msg { return twalk(0, 0, 3, "d") }, 3, -1},
+			{"clunk 1", func() *wire.Msg { return &wire.Msg{Type: wire.Tclunk, Fid: 1} }, -1, 1},
+			{"clunk 2", func() *wire.Msg { return &wire.Msg{Type: wire.Tclunk, Fid: 2} }, -1, 2},
+			{"clunk 3", func() *wire.Msg { return &wire.Msg{Type: wire.Tclunk, Fid: 3} }, -1, 3},
+		}
+		if dotu {
+			alpha = append(alpha,
+				ev{"link through 1 to fid 2 (a file)", link("hl", "2"), -1, -1},
+				ev{"link through 1 to fid 3 (a directory: refused)", link("hd", "3"), -1, -1},
+				ev{"link through 1 to fid 7 (unknown)", link("hu", "7"), -1, -1},
+				ev{"symlink through 1", func() *wire.Msg {
+					return &wire.Msg{Type: wire.Tcreate, Fid: 1, Name: "sl", Perm: go9p.DMSYMLINK | 0777, Mode: 0, Ext: "f"}
+				}, -1, -1})
+		} else {
+			alpha = append(alpha, ev{"create through 1", func() *wire.Msg { return &wire.Msg{Type: wire.Tcreate, Fid: 1, Name: "nf", Perm: 0644, Mode: 1} }, -1, -1},
+				ev{"remove 2", func() *wire.Msg { return &wire.Msg{Type: wire.Tremove, Fid: 2} }, -1, 2})
+		}
+		seen := map[string]bool{}
+		idx := make([]int, depth)
+		for {
+			if rc.Expired() {
+				res.Exhaustive = false
+				res.CapHit = "internal deadline"
+				break
+			}
+			os.RemoveAll(root)
+			os.MkdirAll(filepath.Join(root, "d"), 0o755)
+			os.WriteFile(filepath.Join(root, "f"), []byte("x"), 0o644)
+			var bad string
+			var hist []string
+			body := func() {
+				h := newUfsH(root, 8216, dotu)
+				cl := h.Connect()
+				ver := "9P2000"
+				if dotu {
+					ver = "9P2000.u"
+				}
+				cl.Version(8216, ver)
+				tag := uint16(1)
+				rpc := func(m *wire.Msg) *wire.Msg { tag++; m.Tag = tag; return cl.Rpc(m) }
+				un := ""
+				if !dotu {
+					un = go9p.OsUsers.Uid2User(os.Geteuid()).Name()
+				}
+				if r := rpc(tattach(0, 0, wire.NOFID, un, uint32(os.Geteuid()), dotu)); r == nil || r.Type != wire.Rattach {
+					bad = fmt.Sprintf("attach answered by %v", r)
+					return
+				}
+				valid := map[int]bool{0: true}
+				for _, i := range idx {
+					e := alpha[i]
+					m := e.msg()
+					hist = append(hist, e.name)
+					r := rpc(m)
+					if r == nil {
+						bad = e.name + " was never answered"
+						return
+					}
+					ok := r.Type == m.Type+1
+					if m.Type == wire.Twalk && ok && len(r.Wqid) != len(m.Wname) {
+						ok = false
+					}
+					if m.Type == wire.Tclunk || m.Type == wire.Tremove {
+						if valid[int(m.Fid)] {
+							delete(valid, int(m.Fid)) // gone whatever the answer
+						}
+					} else if ok && e.add >= 0 {
+						if valid[e.add] {
+							bad = fmt.Sprintf("%s succeeded although fid %d was already valid", e.name, e.add)
+							return
+						}
+						valid[e.add] = true
+					}
+					for f := 0; f <= 3; f++ {
+						pr := rpc(&wire.Msg{Type: wire.Tstat, Fid: uint32(f)})
+						isValid := pr != nil && pr.Type == wire.Rstat
+						unknown := pr != nil && pr.Type == wire.Rerror && strings.Contains(pr.Ename, "unknown fid")
+						if valid[f] && !isValid {
+							bad = fmt.Sprintf("after %v fid %d is valid by the history but Tstat answers %v", hist, f, pr)
+							return
+						}
+						if !valid[f] && !unknown {
+							bad = fmt.Sprintf("after %v fid %d is not valid by the history (never bound, or clunked) but Tstat answers %v", hist, f, pr)
+							return
+						}
+					}
+				}
+			}
+			x := vs.Run(nil, body, vs.Options{Horizon: 100000000})
+			res.Evals++
+			res.Nontrivial++
+			res.States++
+			res.Traces++
+			res.Transitions += int64(depth)
+			if len(x.Panics) > 0 {
+				bad = "panic: " + x.Panics[0].Value
+			}
+			if bad != "" {
+				sig := "C04/ufs/" + sigWords(bad)
+				if !seen[sig] && len(res.Findings) < 6 {
+					seen[sig] = true
+					res.Findings = append(res.Findings, Finding{Sig: sig, Msg: name + ": " + bad})
+				}
+			}
+			k := depth - 1
+			for k >= 0 {
+				idx[k]++
+				if idx[k] < len(alpha) {
+					break
+				}
+				idx[k] = 0
+				k--
+			}
+			if k < 0 {
+				break
+			}
+		}
+		res.Samples = append(res.Samples, fmt.Sprintf("all sequences of %d requests over %d (walks, clunks, creates of links naming a second fid), Tstat probes on fids 0..3 after each", depth, len(alpha)))
 		return res
 	}}
 }
